@@ -25,7 +25,9 @@ META = {
 }
 
 TEXTS = ['x', 'x y', 'abc', 'a"b', "it's", 'a\\b', 'é', '\n', ' ', ')', ',', 'ab', 'bc', 'a', '', 'Abc', '  x\ty ',
-         'ünï', '\\', '""', 'a\nb', '<', '&amp;', 'א']
+         'ünï', '\\', '""', 'a\nb', '<', '&amp;', 'א', '\t', ' \t\r\n\f',
+         # white space to Python's \s but not to CSS (content for :empty, ordinary characters for needles)
+         '\xa0', '\u2003', '\x0b', ' \x1f\n', '\x85', '\u3000\n', '\u2028']
 NAMES = ('a', 'b', 'p', 'div', 'iframe', 'span', 'script', 'style', 'rt')
 
 
